@@ -4,7 +4,10 @@ import (
 	"bytes"
 	"crypto/tls"
 	"fmt"
+	"github.com/saucelabs/forwarder/internal/martian"
+	"github.com/saucelabs/forwarder/internal/martian/mitm"
 	"net"
+	"net/http"
 	"net/url"
 	"sort"
 	"strings"
@@ -267,6 +270,10 @@ type Script struct {
 	ClientNoReturn, ServerNoReturn         bool
 	ClientNoReturnConn, ServerNoReturnConn bool
 	Features                               map[string]bool
+	// ViaMITM: the client reaches the relay the way a real client does - CONNECT to a martian
+	// proxy with interception and h2 enabled, TLS handshake offering h2 - and then stays quiet for
+	// longer than the proxy's idle and handshake limits before it runs the script
+	ViaMITM bool
 }
 
 type Options struct {
@@ -670,6 +677,80 @@ type Rig struct {
 	ca   *lib.CA
 	cert tls.Certificate
 	cfg  *h2.Config
+
+	mitmOnce sync.Once
+	mitmAddr string
+	mitmErr  error
+}
+
+const mitmIdle = 700 * time.Millisecond
+
+// mitm starts (once) a martian proxy that intercepts every CONNECT with a certificate of the
+// rig's CA, offers h2 and hands h2 sessions to the relay configuration of the rig; its limits for
+// idle connections and handshakes are well below the quiet period of a via-MITM script.
+func (rg *Rig) mitm() (string, error) {
+	rg.mitmOnce.Do(func() {
+		mc, err := mitm.NewConfig(rg.ca.Cert, rg.ca.Key)
+		if err != nil {
+			rg.mitmErr = err
+			return
+		}
+		mc.SetValidity(time.Hour)
+		mc.SetOrganization("verif h2 rig")
+		mc.SetH2Config(&h2.Config{AllowedHostsFilter: func(string) bool { return true }, RootCAs: rg.cfg.RootCAs})
+		p := new(martian.Proxy)
+		p.MITMConfig = mc
+		p.RoundTripper = &http.Transport{TLSClientConfig: &tls.Config{RootCAs: rg.cfg.RootCAs}}
+		p.IdleTimeout = mitmIdle
+		p.ReadHeaderTimeout = mitmIdle
+		p.MITMTLSHandshakeTimeout = mitmIdle
+		l, err := net.Listen("tcp", "127.0.0.1:0")
+		if err != nil {
+			rg.mitmErr = err
+			return
+		}
+		rg.mitmAddr = l.Addr().String()
+		go p.Serve(l)
+	})
+	return rg.mitmAddr, rg.mitmErr
+}
+
+// connectViaMITM opens the client side of a via-MITM script: CONNECT, 200, TLS with ALPN h2.
+func (rg *Rig) connectViaMITM(target string) (net.Conn, error) {
+	addr, err := rg.mitm()
+	if err != nil {
+		return nil, err
+	}
+	c, err := net.DialTimeout("tcp", addr, 5*time.Second)
+	if err != nil {
+		return nil, err
+	}
+	c.SetDeadline(time.Now().Add(10 * time.Second))
+	fmt.Fprintf(c, "CONNECT %s HTTP/1.1\r\nHost: %s\r\n\r\n", target, target)
+	head := make([]byte, 0, 256)
+	one := make([]byte, 1)
+	for !strings.HasSuffix(string(head), "\r\n\r\n") && len(head) < 4096 {
+		if _, err := c.Read(one); err != nil {
+			c.Close()
+			return nil, fmt.Errorf("reading the CONNECT reply: %w", err)
+		}
+		head = append(head, one[0])
+	}
+	if !strings.HasPrefix(string(head), "HTTP/1.1 200") {
+		c.Close()
+		return nil, fmt.Errorf("CONNECT answered %q", strings.SplitN(string(head), "\r\n", 2)[0])
+	}
+	tc := tls.Client(c, &tls.Config{RootCAs: rg.cfg.RootCAs, ServerName: "127.0.0.1", NextProtos: []string{"h2"}})
+	if err := tc.Handshake(); err != nil {
+		c.Close()
+		return nil, fmt.Errorf("handshake with the intercepting proxy: %w", err)
+	}
+	if tc.ConnectionState().NegotiatedProtocol != "h2" {
+		c.Close()
+		return nil, fmt.Errorf("the intercepting proxy negotiated %q", tc.ConnectionState().NegotiatedProtocol)
+	}
+	c.SetDeadline(time.Time{})
+	return tc, nil
 }
 
 func NewRig() *Rig {
@@ -758,23 +839,33 @@ func (rg *Rig) Run(sc *Script, r *lib.RNG, hb *lib.Heartbeat) Result {
 		return res
 	}
 	defer sl.Close()
-	// client <-> relay connection (TCP pair)
-	cl, _ := net.Listen("tcp", "127.0.0.1:0")
-	defer cl.Close()
-	cconn, err := net.Dial("tcp", cl.Addr().String())
-	if err != nil {
-		res.Inconclusive = "dial: " + err.Error()
-		return res
-	}
-	rconn, err := cl.Accept()
-	if err != nil {
-		res.Inconclusive = "accept: " + err.Error()
-		return res
-	}
 	closing := make(chan bool)
 	relayDone := make(chan error, 1)
 	u := &url.URL{Scheme: "https", Host: sl.Addr().String()}
-	go func() { relayDone <- rg.cfg.Proxy(closing, rconn, u) }()
+	var cconn, rconn net.Conn
+	if sc.ViaMITM {
+		cconn, err = rg.connectViaMITM(sl.Addr().String())
+		if err != nil {
+			res.Inconclusive = "via MITM: " + err.Error()
+			return res
+		}
+		relayDone <- nil // the relay runs inside the proxy's connection handler
+	} else {
+		// client <-> relay connection (TCP pair)
+		cl, _ := net.Listen("tcp", "127.0.0.1:0")
+		defer cl.Close()
+		cconn, err = net.Dial("tcp", cl.Addr().String())
+		if err != nil {
+			res.Inconclusive = "dial: " + err.Error()
+			return res
+		}
+		rconn, err = cl.Accept()
+		if err != nil {
+			res.Inconclusive = "accept: " + err.Error()
+			return res
+		}
+		go func() { relayDone <- rg.cfg.Proxy(closing, rconn, u) }()
+	}
 	cconn.Write([]byte(preface))
 	sconnCh := make(chan net.Conn, 1)
 	go func() {
@@ -807,6 +898,11 @@ func (rg *Rig) Run(sc *Script, r *lib.RNG, hb *lib.Heartbeat) Result {
 		res.Inconclusive = "relay did not connect to the server"
 		cconn.Close()
 		return res
+	}
+	if sc.ViaMITM {
+		// quiet for longer than every limit of the proxy in front of the relay: an established
+		// h2 session is not subject to them
+		time.Sleep(mitmIdle + 500*time.Millisecond)
 	}
 	deadline := time.Now().Add(45 * time.Second)
 	ce := newEndpoint("client", true, cconn, r.Sub(1), sc.ClientPol)
@@ -1175,7 +1271,9 @@ func (rg *Rig) Run(sc *Script, r *lib.RNG, hb *lib.Heartbeat) Result {
 	close(closing)
 	cconn.Close()
 	sconn.Close()
-	rconn.Close()
+	if rconn != nil {
+		rconn.Close()
+	}
 	select {
 	case <-relayDone:
 	case <-time.After(5 * time.Second):
